@@ -217,7 +217,8 @@ class Gen:
                  'substr', 'tokc', 'toks', 'split', 'eq', 'cmp', 'cmpn', 'cmpi', 'cmpin', 'eqi', 'findc', 'findlc', 'findcf',
                  'finds', 'findsf', 'findo', 'findof', 'findls', 'findlo', 'starts', 'ends', 'len', 'drop', 'appo', 'appo', 'printfs',
                  'eqlit', 'splitset', 'fromprintf', 'stat', 'stat',
-                 'pluseq', 'pluseqc', 'plus', 'pluslit', 'plusasg', 'plusasg', 'frombool', 'fromcstr', 'fromcstrn', 'tobool', 'tobool', 'char']
+                 'pluseq', 'pluseqc', 'plus', 'pluslit', 'plusasg', 'plusasg', 'frombool', 'fromcstr', 'fromcstrn', 'tobool', 'tobool', 'char',
+                 'preo', 'preo', 'trimd', 'trimd', 'substrd', 'splitd', 'splitsetd']
         if self.allowed:
             kinds = [k for k in kinds if k in self.allowed]
         what = r.choice(kinds)
@@ -327,6 +328,7 @@ class Gen:
         elif what == 'trim':
             ends = bytes(set((x.val[:2] + x.val[-2:])))
             chars = bytes(c for c in ends if r.random() < 0.6) + (self.cdata(r.randrange(0, 3)) if r.random() < 0.5 else b'')
+            if r.random() < 0.1: chars += bytes(r.choice([9, 10, 11, 12, 13, 32]) for _ in range(r.randrange(1, 4)))
             chars = bytes(c for c in chars if c != 0)
             nv_ = x.val.strip(chars) if chars else x.val
             lab = 'trim/' + kd + ('/empty' if n == 0 else '/all' if not nv_ else '/some' if len(nv_) != n else '/none')
@@ -364,6 +366,56 @@ class Gen:
             nv_ = x.val + x.val[off:off + ln]
             lab = mutate_known(nv_, n, len(nv_))
             self.emit('appo %d %d %d' % (v, off, ln), 'append-own-text/%s/%s%s' % (lab, lab0, shared))
+        elif what == 'preo':
+            # prepend(p + off, len) with p the String's own C-string view
+            lab0 = sh.cstr(v)
+            x = sh.vars[v]; n = len(x.val)
+            goal = r.choice(['whole', 'whole', 'suffix', 'suffix', 'prefix', 'inner', 'empty'])
+            if goal == 'whole' or n == 0: off, ln = 0, n
+            elif goal == 'suffix': off = r.randrange(n + 1); ln = n - off
+            elif goal == 'prefix': off, ln = 0, r.randrange(n + 1)
+            elif goal == 'empty': off, ln = r.randrange(n + 1), 0
+            else: off = r.randrange(n + 1); ln = r.randrange(n - off + 1)
+            kd1 = x.kind + ('/shared' if sh.refs(v) > 1 else '')
+            nv_ = x.val[off:off + ln] + x.val
+            sh.own(v, nv_, or3(len(nv_)))
+            self.emit('preo %d %d %d' % (v, off, ln), 'prepend-own-text/%s/%s/%s' % (kd1, goal, lab0))
+        elif what == 'trimd':
+            # trim() with the default character set " \t\r\n\v": mostly on a value that was given white space at its ends
+            # (0x0c, the form feed, 0x85 and 0xa0 are NOT in the set)
+            if r.random() < 0.8:
+                ws = [0x20, 0x09, 0x0d, 0x0a, 0x0b, 0x0d, 0x0b, 0x0c, 0x85, 0xa0, 0x1f, 0x08, 0x0e]
+                for side in ('preb', 'appb'):
+                    if r.random() < 0.75:
+                        d = bytes(r.choice(ws) for _ in range(r.randrange(1, 4)))
+                        if side == 'preb':
+                            sh.own(v, d + sh.vars[v].val, or3(len(d) + len(sh.vars[v].val)))
+                            self.emit('preb %d %s' % (v, hexs(d)), 'prepend-buffer/' + kd + shared)
+                        else:
+                            n0 = len(sh.vars[v].val)
+                            sh.detach(v, n0, n0 + len(d)); sh.vars[v].val = sh.vars[v].val + d
+                            self.emit('appb %d %s' % (v, hexs(d)), 'append-buffer/ws')
+            x = sh.vars[v]; n = len(x.val)
+            nv_ = x.val.strip(b' \t\r\n\v')
+            kd1 = x.kind + ('' if x.term else 'u')
+            lab = 'trim-default/' + kd1 + ('/empty' if n == 0 else '/all' if not nv_ else '/some' if len(nv_) != n else '/none')
+            if len(nv_) != n:
+                sh.own(v, nv_, or3(len(nv_)))
+            self.emit('trimd %d' % v, lab)
+        elif what == 'substrd':
+            if full: return self.step()
+            st = r.choice([0, 1, n, n + 1, -1, -n, -n - 1, r.randrange(-n - 2, n + 3)])
+            s0 = max(0, n + st) if st < 0 else min(st, n)
+            d = x.val[s0:]
+            sh.ngrp += 1
+            sh.vars.append(Var(d, 'O', or3(len(d)), sh.ngrp))
+            self.emit('substrd %d %d' % (v, st), 'substr(start)/' + ('neg-start' if st < 0 else 'past-end' if st > n else 'in'))
+        elif what in ('splitd', 'splitsetd'):
+            if not self.nulfree(v): return self.step()
+            seps = self.piece_of(v, 2) if r.random() < 0.8 else self.cdata(r.randrange(0, 3))
+            seps = bytes(c for c in seps if c != 0)
+            sh.cstr(v)
+            self.emit('%s %d %s' % (what, v, hexs(seps)), ('split(list, seps)/' if what == 'splitd' else 'split(set, seps)/') + kd)
         elif what == 'join':
             k = r.choice([0, 1, 2, 2, 3])
             us = [self.other(v) if r.random() < 0.4 else r.randrange(len(sh.vars)) for _ in range(k)]
@@ -443,8 +495,9 @@ class Gen:
             d = self.piece_of(v)
             d = bytes(c for c in d if c != 0)
             if what in ('findsf', 'findof'):
-                st = r.choice([0, n, n + 1, r.randrange(0, n + 2)])
-                if st < n: sh.cstr(v)
+                st = r.choice([0, n, n, n + 1, r.randrange(0, n + 2)])
+                if what == 'findsf' and r.random() < 0.15: d = b''          # the empty needle, found at every start <= length()
+                if st < n or (what == 'findsf' and st == n): sh.cstr(v)     # find(str, start) takes the view for start <= len (fix 10)
                 self.emit('%s %d %s %d' % (what, v, hexs(d), st), what + '/' + kd + ('/empty-arg' if not d else ''))
             else:
                 sh.cstr(v)
@@ -630,7 +683,7 @@ class Gen:
         return self.ops
 
 
-CORE_OPS = ['apps', 'appb', 'appc', 'appo', 'pres', 'preb', 'asg', 'copy-mutate', 'resize', 'reserve', 'clear', 'detach', 'poke', 'cstr',
+CORE_OPS = ['apps', 'appb', 'appc', 'appo', 'pres', 'preb', 'preo', 'asg', 'copy-mutate', 'resize', 'reserve', 'clear', 'detach', 'poke', 'cstr',
             'attach', 'eq', 'len', 'drop']
 
 # round 3: the concatenation operators between variables in every representation (empty, literal, unterminated view,
@@ -657,6 +710,82 @@ def tobool_cases(maxlen):
         if len(t) <= 39 and 0 not in t:
             ops += ['lit ' + hexs(t), 'tobool 2']
         ops += ['fromcstr ' + hexs(t), 'tobool %d' % (3 if len(ops) == 8 else 2), 'pluseq 0 0', 'tobool 0', 'pluslit 0 2e30', 'tobool %d' % (4 if len(ops) == 8 else 3)]
+        out.append(ops)
+    return out
+
+
+def default_cases():
+    """round 5: the defaulted arguments.  trim() on every byte c put at both ends of a text (owned buffer and attached
+    window): exactly blank, \\t, \\r, \\n, \\v go away; substr(start) and split(tokens, separators) without the last argument"""
+    out = []
+    for c in range(256):
+        h = '%02x' % c
+        out.append(['buf ' + h + '61' + h, 'trimd 0', 'reg ' + h + h + '6220' + h + '21', 'new', 'attach 1 0 0 5', 'trimd 1',
+                    'buf 20' + h + '0d630b' + h + '09', 'trimd 2'])
+    for st in (-9, -3, -1, 0, 1, 2, 5, 6, 7):
+        out.append(['buf 616263646566', 'substrd 0 %d' % st, 'substr 0 %d -1' % st, 'eq 1 2', 'lit 6162', 'substrd 3 %d' % st])
+    for seps in ('2c', '2c3b', '-'):
+        out.append(['buf 2c612c2c623b632c', 'splitd 0 ' + seps, 'split 0 %s 1' % seps, 'splitsetd 0 ' + seps, 'splitset 0 %s 1' % seps,
+                    'lit 2c2c', 'splitd 1 ' + seps, 'splitsetd 1 ' + seps])
+    return out
+
+
+# round 5: values around the widths of narrower integer types.  A value of n bytes is built by fill / resize / append,
+# then handed to the operations that carry a length through their own arithmetic (substr and everything built on it:
+# token, split, trim; append / prepend / assignment / copy; join; comparison and search answers are positions).
+EDGE_SIZES = [255, 256, 257, 32767, 32768, 32769, 65534, 65535, 65536, 65537, 65540, 70000]
+
+
+SLOW_HUGE = []
+
+
+def huge_cases(rng, count):
+    out = []
+    for i in range(count):
+        n = EDGE_SIZES[i % len(EDGE_SIZES)] if i < 2 * len(EDGE_SIZES) else rng.choice(EDGE_SIZES[3:])
+        c = rng.choice([0x61, 0x7a, 0x80])
+        sep = 0x2c
+        ops = []
+        how = rng.randrange(3)
+        if how == 0:
+            ops.append('fill %d %d' % (n, c))
+        elif how == 1:
+            ops += ['fill %d %d' % (n - 3, c), 'appb 0 %s' % hexs(bytes([c, 0x62, c]))]
+        else:
+            ops += ['buf 6162', 'resize 0 %d %d' % (n, c)]
+        # a marker near the end and a separator in the middle: positions above the boundary are answers too
+        pos = rng.choice([n - 1, n - 2, n // 2 + 1])
+        ops.append('poke 0 %d %d' % (pos, 0x51))
+        tail = rng.sample(['substrd', 'substr', 'tokc', 'toks', 'copy', 'asg', 'apps', 'pres', 'preb', 'appo', 'preo',
+                           'findc', 'findlc', 'finds', 'findls', 'cmp', 'join', 'plus', 'len', 'cstr', 'lower', 'reps', 'printfs'] + SLOW_HUGE, 4)
+        nv = 1
+        for t_ in tail:
+            if t_ == 'substrd': ops.append('substrd 0 %d' % rng.choice([0, 1, -n, -(n - 1)])); nv += 1
+            elif t_ == 'substr': ops.append('substr 0 %d %d' % (rng.choice([0, 1, 2]), rng.choice([n, n - 1, n - 2, 65536, 65535, 32768, 256]))); nv += 1
+            elif t_ == 'tokc': ops.append('tokc 0 %d %d' % (0x51, rng.choice([0, 1]))); nv += 1
+            elif t_ == 'toks': ops.append('toks 0 5121 %d' % rng.choice([0, 1])); nv += 1
+            elif t_ == 'split': ops.append('split 0 51 %d' % rng.randrange(2))
+            elif t_ == 'trim': ops += ['preb 0 2020', 'appb 0 20', 'trim 0 20']
+            elif t_ == 'trimd': ops += ['preb 0 0d', 'appb 0 0b0a', 'trimd 0']
+            elif t_ == 'copy': ops += ['copy 0', 'appc %d 33' % nv, 'eq 0 %d' % nv]; nv += 1
+            elif t_ == 'asg': ops += ['new', 'asg %d 0' % nv, 'len %d' % nv]; nv += 1
+            elif t_ == 'apps': ops += ['buf 78', 'apps %d 0' % nv, 'len %d' % nv]; nv += 1
+            elif t_ == 'pres': ops += ['buf 78', 'pres %d 0' % nv, 'len %d' % nv]; nv += 1
+            elif t_ == 'preb': ops.append('preb 0 7879')
+            elif t_ == 'appo': ops.append('appo 0 %d %d' % (rng.choice([0, 1]), rng.choice([2, 256, 257])))
+            elif t_ == 'preo': ops.append('preo 0 %d %d' % (rng.choice([0, 1]), rng.choice([2, 256, 257])))
+            elif t_ == 'findc': ops.append('findc 0 81')
+            elif t_ == 'findlc': ops.append('findlc 0 81')
+            elif t_ == 'finds': ops.append('finds 0 51')
+            elif t_ == 'findls': ops.append('findls 0 51')
+            elif t_ == 'cmp': ops += ['copy 0', 'poke %d %d 33' % (nv, n - 1), 'cmp 0 %d' % nv, 'cmpn 0 %d %d' % (nv, n - 1), 'starts 0 %d' % nv]; nv += 1
+            elif t_ == 'join': ops += ['new', 'join %d 44 0 0' % nv, 'len %d' % nv]; nv += 1
+            elif t_ == 'plus': ops += ['plus 0 0', 'len %d' % nv]; nv += 1
+            elif t_ == 'len': ops.append('len 0')
+            elif t_ == 'cstr': ops.append('cstr 0')
+            elif t_ == 'lower': ops.append('upper 0')
+            elif t_ == 'reps': ops += ['buf 51', 'buf 5252', 'reps 0 %d %d' % (nv, nv + 1)]; nv += 2
+            elif t_ == 'printfs': ops.append('printfs 0 3c 3e')
         out.append(ops)
     return out
 
@@ -690,6 +819,10 @@ SCOPE_ALPHABET = [
     'pluslit 3 7a', 'pluslit 1 -', 'pluslit 0 6364', 'plusasg 1 1 1', 'plusasg 3 3 0', 'plusasg 0 1 0', 'plusasg 2 3 3', 'plusasg 3 0 3', 'plusasg 1 2 1',
     'frombool 1', 'frombool 0', 'fromcstr 7071', 'fromcstr -', 'fromcstrn 70007172 3', 'fromcstrn 7071 0', 'tobool 3', 'tobool 0', 'char lower 90',
     'char isspace 160', 'stat sfinds 3 0 0', 'stat sfinds 3 3 0', 'stat sfindo 3 3 0', 'stat sfindo 0 1 0',
+    # round 5: a pointer into the own text handed to prepend; calls without the defaulted arguments
+    'preo 1 0 2', 'preo 1 1 1', 'preo 3 1 2', 'preo 0 0 2', 'preo 2 1 0', 'trimd 3', 'trimd 1', 'substrd 3 1', 'substrd 0 -1', 'splitd 3 79',
+    'splitsetd 0 62', 'appb 1 200d', 'preb 3 0b09',
+    'findsf 3 - 3', 'findsf 3 - 4', 'findsf 0 - 2', 'findsf 3 7a 3', 'findsf 1 - 0', 'findof 3 - 3', 'findcf 3 122 3',
 ]
 
 
@@ -698,6 +831,7 @@ SCOPE3_ALPHABET = [
     'copy 3', 'drop', 'clear 1', 'resize 1 5 120', 'resize 3 2 120', 'reserve 1 9', 'poke 1 0 90', 'cstr 3', 'attach 1 0 1 2', 'reps 3 3 1',
     'join 1 44 1 3', 'lower 2', 'printf 3 7071', 'trim 3 78', 'appo 1 0 2', 'appo 3 1 2', 'printfs 1 3c 3e',
     'pluseq 3 3', 'pluseq 1 0', 'plus 3 1', 'plusasg 1 1 1', 'plusasg 3 3 0', 'plusasg 0 3 0', 'pluslit 3 7a',
+    'preo 1 0 2', 'preo 3 1 2',
 ]
 
 
@@ -841,7 +975,7 @@ class C06(Check):
             opl = c[k] if k < len(c) else ('end' if k == len(c) else '?')
             t = opl.split()
             selfarg = (len(t) > 2 and t[0] in ('apps', 'pres', 'asg', 'reps', 'join', 'eq', 'cmp', 'starts', 'ends', 'pluseq', 'plus', 'plusasg') and t[1] in t[2:]) \
-                or (t and t[0] in ('appo', 'printfs'))
+                or (t and t[0] in ('appo', 'printfs', 'preo'))
             if got.startswith('!'):
                 kind = got.split(' | ')[0].strip()
             elif exp.split(' | ')[0] != got.split(' | ')[0]:
@@ -897,6 +1031,10 @@ class C06(Check):
                           note='every single operation of a %d-operation alphabet after a fixed prologue (literal, shared owned, unterminated view)' % len(SCOPE_ALPHABET)))
         out.append(Stream('scope2', scope_cases(2, SCOPE_ALPHABET), exhaustive=True,
                           note='every history of 2 operations over the same alphabet'))
+        out.append(Stream('defaults', default_cases(), exhaustive=True,
+                          note='round 5: the defaulted arguments - trim() on every byte 0..255 at both ends of a text (owned and attached), substr(start), split(tokens, separators) for List and HashSet'))
+        out.append(Stream('huge', huge_cases(rng, 160 if th else 30),
+                          note='round 5: values of 255 .. 257, 32767 .. 32769, 65534 .. 65540 and 70000 bytes (built by fill / resize / append) handed to substr, token, split, trim, copy / assign, append / prepend (also from the own text), join, +, replace, printf with the own text, comparison and search; values above 1024 bytes are compared by length and a 32-bit checksum'))
         if th:
             out.append(Stream('scope3', scope_cases(3, SCOPE3_ALPHABET), exhaustive=True,
                               note='every history of 3 operations over a %d-operation alphabet (copy / assign / append / prepend / resize / clear / view / attach incl. self arguments)' % len(SCOPE3_ALPHABET)))
@@ -923,7 +1061,7 @@ class C06(Check):
             if t[0] in ('apps', 'pres', 'asg', 'eq', 'cmp', 'starts', 'ends', 'pluseq', 'plus') and len(t) > 2 and t[1] == t[2]: feats.add('self')
             if t[0] == 'plusasg' and (t[1] == t[2] or t[1] == t[3]): feats.add('self')
             if t[0] == 'reps' and (t[1] == t[2] or t[1] == t[3]): feats.add('self')
-            if t[0] in ('appo', 'printfs'): feats.add('self')
+            if t[0] in ('appo', 'printfs', 'preo'): feats.add('self')
             if t[0] == 'stat' and t[2] == t[3]: feats.add('self')
         muts = sum(1 for l in case if l.split()[0] not in ('new', 'lit', 'buf', 'fill', 'cap', 'reg', 'eq', 'len', 'cmp', 'findc', 'findlc', 'starts', 'ends',
                                                             'eqlit', 'stat', 'splitset', 'fromprintf', 'frombool', 'fromcstr', 'fromcstrn',
